@@ -16,6 +16,9 @@ way it is spelled.  The rewrite is only made where it is exact:
   * get-or-create through a local is the same thing: `x = self.A; if x is None: x = NEW; self.A = x; ...x...` is
     `if self.A is None: self.A = NEW; ...self.A...`.
 
+  * create-then-publish through a local is the same thing too: `x = NEW; self.A = x; ...x...` is `self.A = NEW; ...self.A...`
+    (adjacent statements; the reads of x are then folded under the conditions above).
+
 Whatever does not meet these conditions is left alone (rules then see the alias through `Sym`, as before)."""
 import ast
 import copy
@@ -99,6 +102,7 @@ class AliasFolder:
             try:
                 self._unpack(f)
                 if f.cls is not None:
+                    self._store_through(f)
                     self._fold(f)
             except RecursionError:       # pathological nesting: leave the function as it is
                 continue
@@ -122,6 +126,22 @@ class AliasFolder:
                 b = getattr(holder, fld, None)
                 if not (isinstance(b, list) and b and isinstance(b[0], ast.stmt)):
                     continue
+                # x, y = (a, b)   is   x = a ; y = b   under the same conditions (no target read by a later source)
+                i = 0
+                while i < len(b):
+                    s = b[i]
+                    if isinstance(s, ast.Assign) and len(s.targets) == 1 and isinstance(s.targets[0], ast.Tuple) and isinstance(s.value, ast.Tuple) and \
+                            len(s.targets[0].elts) == len(s.value.elts) and all(isinstance(t, ast.Name) for t in s.targets[0].elts) and all(simple(e) for e in s.value.elts):
+                        names = [t.id for t in s.targets[0].elts]           # type: ignore[attr-defined]
+                        srcs = s.value.elts
+                        clash = any(isinstance(y, ast.Name) and y.id in names[:k] for k, e in enumerate(srcs) for y in ast.walk(e))
+                        if not clash:
+                            b[i:i + 1] = [ast.fix_missing_locations(ast.copy_location(ast.Assign(targets=[ast.Name(id=nm, ctx=ast.Store())], value=e, type_comment=None), s))
+                                          for nm, e in zip(names, srcs)]
+                            self.folded += 1
+                            i += len(names)
+                            continue
+                    i += 1
                 i = 0
                 while i + 1 < len(b):
                     s, nxt = b[i], b[i + 1]
@@ -140,6 +160,40 @@ class AliasFolder:
                             i += len(names)
                             continue
                     i += 1
+
+    # ---- x = NEW ; self.A = x ; ...x...   is   self.A = NEW ; x = self.A ; ...x...   (x stored once; adjacent statements), after which
+    #      x is an ordinary alias of self.A and _fold decides whether the reads can be spelled self.A
+    def _store_through(self, f: Any) -> None:
+        node = f.node
+        stores: Dict[str, int] = {}
+        for x in ast.walk(node):
+            if isinstance(x, ast.Name) and isinstance(x.ctx, (ast.Store, ast.Del)):
+                stores[x.id] = stores.get(x.id, 0) + 1
+        for holder in ast.walk(node):
+            for fld in ('body', 'orelse', 'finalbody'):
+                b = getattr(holder, fld, None)
+                if not (isinstance(b, list) and b and isinstance(b[0], ast.stmt)):
+                    continue
+                for i in range(len(b) - 1):
+                    s, nxt = b[i], b[i + 1]
+                    if isinstance(s, ast.Assign) and len(s.targets) == 1 and isinstance(s.targets[0], ast.Name):
+                        nm, val = s.targets[0].id, s.value
+                    elif isinstance(s, ast.AnnAssign) and isinstance(s.target, ast.Name) and s.value is not None:
+                        nm, val = s.target.id, s.value
+                    else:
+                        continue
+                    if stores.get(nm) != 1 or nm in f.params or _chain(val) is not None or isinstance(val, (ast.Constant, ast.Name)):
+                        continue
+                    if isinstance(nxt, ast.Assign) and len(nxt.targets) == 1 and _chain(nxt.targets[0]) is not None and len(_chain(nxt.targets[0]) or []) == 2 and \
+                            isinstance(nxt.value, ast.Name) and nxt.value.id == nm:
+                        tgt = nxt.targets[0]
+                        b[i] = ast.fix_missing_locations(ast.copy_location(ast.Assign(targets=[tgt], value=val, type_comment=None), s))
+                        back = copy.deepcopy(tgt)
+                        for y in ast.walk(back):
+                            if isinstance(y, ast.Attribute):
+                                y.ctx = ast.Load()
+                        b[i + 1] = ast.fix_missing_locations(ast.copy_location(ast.Assign(targets=[ast.Name(id=nm, ctx=ast.Store())], value=back, type_comment=None), nxt))
+                        self.folded += 1
 
     def _fold(self, f: Any) -> None:
         node = f.node
